@@ -259,6 +259,6 @@ Definition fam_len (fam k : N) (ls : list N) : N :=
 
 Definition run_family (l : list N) : list N :=
   match l with
-  | fam :: k :: ls => [fam_len fam k ls]
+  | fam :: k :: ls => [15; fam_len fam k ls]
   | _ => [7]
   end.
